@@ -76,6 +76,10 @@ class RaggedSys(System):
             return x, x
         if colour == 'badatom':
             return np.zeros((1,) + at[:-1] + ((at[-1] + 1,) if at else (3,)), dtype=dt), None
+        if colour == 'badatom0':      # zero-length subarray of the wrong atom: holds no values, still incompatible
+            return np.zeros((0,) + at[:-1] + ((at[-1] + 1,) if at else (3,)), dtype=dt), None
+        if colour == 'badzero':       # atom with a zero extent
+            return np.zeros((2,) + at[:-1] + (0,), dtype=dt), None
         if colour == 'badrank':
             if at:
                 return np.zeros((2,) + at[1:], dtype=dt) if len(at) > 1 else np.zeros((2,), dtype=dt), None
@@ -153,7 +157,7 @@ class RaggedSys(System):
             ops += [('truncate', k) for k in (0, -1, 5)]
             ops += [('reopen',)]
         else:
-            ops += [('append', 'badatom'), ('append', 'badrank'), ('append', 'unconv')]
+            ops += [('append', 'badatom'), ('append', 'badrank'), ('append', 'unconv'), ('append', 'badatom0'), ('append', 'badzero')]
             ops += [('truncate', k) for k in TRUNC_KS]
             ops += [('mode', 'r'), ('mode', 'r+'), ('reopen',), ('truncpath', 1)]
         if 'meta' in self.features:
